@@ -92,3 +92,15 @@ pub fn wt_client(t: &Tuning) -> Endpoint<Client> {
 pub fn url_for(addr: SocketAddr, path: &str) -> String {
     format!("https://{}{}", addr, path)
 }
+
+/// Server built through the library's *default* builder path (`with_identity`, default transport).
+pub fn wt_server_default() -> Endpoint<Server> {
+    let cfg = ServerConfig::builder().with_bind_address(localhost0()).with_identity(wt_identity()).build();
+    Endpoint::server(cfg).expect("server endpoint")
+}
+
+/// Client built through the library's default transport (no certificate validation).
+pub fn wt_client_default() -> Endpoint<Client> {
+    let cfg = ClientConfig::builder().with_bind_address(localhost0()).with_no_cert_validation().build();
+    Endpoint::client(cfg).expect("client endpoint")
+}
